@@ -413,14 +413,14 @@ func init() {
 // stage 2: random larger instances
 
 type bigIterCase struct {
-	Wide       spec.WideSpec `json:"wide"`
-	ChunkMode  uint32        `json:"chunkMode"`
-	Provenance int           `json:"provenance"`
-	Term       string        `json:"term"`
-	Except     spec.DropSpec `json:"except"`
-	Flags      int           `json:"flags"`
+	Wide       spec.WideSpec  `json:"wide"`
+	ChunkMode  uint32         `json:"chunkMode"`
+	Provenance int            `json:"provenance"`
+	Term       string         `json:"term"`
+	Except     spec.DropSpec  `json:"except"`
+	Flags      int            `json:"flags"`
 	Replace    *spec.DropSpec `json:"replace,omitempty"` // docs REMOVED from the actual bitmap before iterating
-	Script     []iterCall    `json:"script"`             // Target is a delta beyond the last returned doc for Advance
+	Script     []iterCall     `json:"script"`            // Target is a delta beyond the last returned doc for Advance
 }
 
 func genBigIterCase(t *rapid.T) bigIterCase {
@@ -573,15 +573,15 @@ func TestC07Large(t *testing.T) { c07big.Rapid(t) }
 // stage 3: preallocation-reuse histories
 
 type reuseAction struct {
-	Op      string        `json:"op"` // list iter next advance count replace
-	Seg     int           `json:"seg,omitempty"`
-	Field   string        `json:"field,omitempty"`
-	Term    spec.B        `json:"term,omitempty"`
-	Except  spec.DropSpec `json:"except,omitempty"`
-	Pre     int           `json:"pre,omitempty"` // 0 nil, 1 previous object, 2 a never-used empty object of the same type
-	Flags   int           `json:"flags,omitempty"`
-	Delta   uint64        `json:"delta,omitempty"`
-	Remove  []uint32      `json:"remove,omitempty"`
+	Op     string        `json:"op"` // list iter next advance count replace
+	Seg    int           `json:"seg,omitempty"`
+	Field  string        `json:"field,omitempty"`
+	Term   spec.B        `json:"term,omitempty"`
+	Except spec.DropSpec `json:"except,omitempty"`
+	Pre    int           `json:"pre,omitempty"` // 0 nil, 1 previous object, 2 a never-used empty object of the same type
+	Flags  int           `json:"flags,omitempty"`
+	Delta  uint64        `json:"delta,omitempty"`
+	Remove []uint32      `json:"remove,omitempty"`
 }
 
 type reuseCase struct {
